@@ -462,7 +462,8 @@ def run(pr, repo):
                 # order of the parts in the file: the only state carried from one record to the next is the terminus search, and a
                 # TER record (in whatever layout) re-arms it - the record automaton of C01 for the non-ATOM records
                 [(task_boundary_records, (t,)) for t in ['TER   ', 'MODEL ', 'OTHER'] + sorted(reader.TER_SHORT)] + [(reader.task_nterm, ()), (task_squared_cutoffs, ())])
-    pr.assumptions += ['iterative solver: "stopping later does not change a converged component" is NOT proved (fixed point of the '
+    pr.assumptions += ['residue identity = label as in the code (chain + number, no insertion code): inputs with insertion-code twins of one residue type are outside what is shown here (known finding D9, DESIGN 10.5)',
+                       'iterative solver: "stopping later does not change a converged component" is NOT proved (fixed point of the '
                        'sweep in degenerate ties) - bounded monitor only', 'composition step; A-REAL',
                        'covalent coupling search is bond-based (C11: bonds need distance <= 2.5 A)']
     bounded(pr)
